@@ -98,22 +98,33 @@ Definition dec_outc (j : J) : option outc :=
 Definition is_ok_with (o : outc) (rs : list (bytes * Z)) : bool :=
   match o with OOk l => recs_eqb l rs | _ => false end.
 
-(* how a failing read surfaces: `collect_par` on a streaming source panics ("cloneable source")
-   when a partition cannot be read; every other entry point returns Err.  For the JSONL
-   streaming source a failure of the pre-scan (build_jsonl_shards) is an Err, a failure at
-   partition time a panic: both are accepted there. *)
-Definition is_fail (r : reader_ep) (o : outc) : bool :=
+(* how a failing read surfaces.
+   - every entry point returns Err, except:
+   - `collect_par` on a streaming source panics ("cloneable source") when a partition cannot be
+     read (for the JSONL streaming source a failure of the pre-scan build_jsonl_shards is an Err,
+     a failure at partition time a panic: both are accepted there);
+   - CSV readers with has_headers = true: the csv crate swallows an I/O error raised while it
+     reads the header row and then reports end of input, so a decoder failure on the first read
+     comes back as Ok(no records) (hdr = true only occurs in kind "raw"). *)
+Definition is_csv_reader (r : reader_ep) : bool :=
+  match r with
+  | RCsvVec | RCsvRange | RPcCsv | RPcCsvGlob | RCsvStreamSeq | RCsvStreamPar => true
+  | _ => false
+  end.
+Definition is_fail (r : reader_ep) (hdr : bool) (o : outc) : bool :=
   match o, r with
   | OErr, _ => true
   | OPanic, (RJsonlStreamPar | RCsvStreamPar) => true
+  | OOk [], _ => hdr && is_csv_reader r
   | _, _ => false
   end.
 
-(* expected outcome given in a case input: ["ok", recs] | ["err"] *)
-Definition outc_matches (r : reader_ep) (expect obs : outc) : bool :=
+(* a parse failure of the plain parser (no decoder involved) is always an error / panic *)
+Definition outc_matches (r : reader_ep) (hdr : bool) (decoder_failed : bool) (expect obs : outc)
+  : bool :=
   match expect with
   | OOk rs => is_ok_with obs rs
-  | _ => is_fail r obs
+  | _ => is_fail r (hdr && decoder_failed) obs
   end.
 
 Definition shards_ok (j : J) : bool := match j with JN | JI _ => true | _ => false end.
@@ -138,7 +149,7 @@ Definition check_rt (input output : J) : verdict :=
                     && (match wc with None => zlist_eqb hs hp | Some c => starts_with (signature c) hs end)
                     && (match read_m with
                         | Some x => zlist_eqb x hp && is_ok_with ro recs
-                        | None => is_fail r ro
+                        | None => is_fail r false ro
                         end) in
                   (* --- property instance on the observed outcome, independent reference --- *)
                   let e := ref_ext name in
@@ -157,6 +168,7 @@ Definition check_rt (input output : J) : verdict :=
                   ok_verdict agree prop
               | _, _, _ => malformed
               end
+          | JL [t] => if jtag_is "werr" t then ok_verdict false false else malformed
           | _ => malformed
           end
       | _, _, _, _, _ => malformed
@@ -167,7 +179,7 @@ Definition check_rt (input output : J) : verdict :=
 (* ---------- kind "raw" ---------- *)
 Inductive origin :=
 | OLit (content : bytes)
-| OEnc (w : writer_ep) (encname : bytes).
+| OEnc (w : writer_ep) (encname : bytes) (recs : list (bytes * Z)).
 
 Definition dec_origin (j : J) : option origin :=
   match j with
@@ -175,7 +187,7 @@ Definition dec_origin (j : J) : option origin :=
   | JL [t; JI wz; en; rs; sh] =>
       if jtag_is "enc" t then
         match writer_of wz, jbytes en, dec_recs rs, shards_ok sh with
-        | Some w, Some n, Some _, true => Some (OEnc w n)
+        | Some w, Some n, Some l, true => Some (OEnc w n l)
         | _, _, _, _ => None
         end
       else None
@@ -184,57 +196,61 @@ Definition dec_origin (j : J) : option origin :=
 
 Definition check_raw (input output : J) : verdict :=
   match input with
-  | JL [JI rz; jname; jorigin; JB _; jev; jed] =>
-      match reader_of rz, jbytes jname, dec_origin jorigin, dec_outc jev, dec_outc jed with
-      | Some r, Some name, Some org, Some ev, Some ed =>
+  | JL [JI rz; jname; jorigin; JB hdr] =>
+      match reader_of rz, jbytes jname, dec_origin jorigin with
+      | Some r, Some name, Some org =>
           match output with
-          | JL [jh; jro] =>
-              match jbytes jh, dec_outc jro with
-              | Some h, Some ro =>
+          | JL [jh; jro; jref] =>
+              match jbytes jh, dec_outc jro, dec_outc jref with
+              | Some h, Some ro, Some ev =>
+                  (* ev = harness-side reference: a plain parse of the file content;
+                     ed = what decoding gives when the right decoder is applied *)
+                  let ed := match org with OEnc _ _ rs => OOk rs | OLit _ => OErr end in
                   (* --- model --- *)
                   let content_m :=
-                    match org with OLit b => b | OEnc w en => write toy_enc w en [] end in
+                    match org with OLit b => b | OEnc w en _ => write toy_enc w en [] end in
                   let rc := ep_reader_codec r name content_m in
-                  let expect :=
+                  let '(expect, decfail) :=
                     match rc with
-                    | None => ev                                  (* handed to the parser verbatim *)
+                    | None => (ev, false)                         (* handed to the parser verbatim *)
                     | Some c =>
                         match org with
-                        | OEnc w en =>
-                            if ocodec_idx (ep_writer_codec w en) =? codec_idx c then ed else OErr
-                        | OLit _ => OErr                          (* decoder on foreign bytes *)
+                        | OEnc w en _ =>
+                            if ocodec_idx (ep_writer_codec w en) =? codec_idx c then (ed, false)
+                            else (OErr, true)
+                        | OLit _ => (OErr, true)                  (* decoder on foreign bytes *)
                         end
                     end in
                   let head_ok :=
                     match org with
                     | OLit b => zlist_eqb h (firstn 16 b)
-                    | OEnc w en =>
+                    | OEnc w en _ =>
                         match ep_writer_codec w en with
                         | Some c => starts_with (signature c) h
                         | None => true
                         end
                     end in
-                  let agree := head_ok && outc_matches r expect ro in
+                  let agree := head_ok && outc_matches r hdr decfail expect ro in
                   (* --- property instance --- *)
                   let e := ref_ext name in
                   let s := ref_sig h in
                   let prop :=
                     match org with
                     | OLit _ =>
-                        if (e =? -1) && (s =? -1) then outc_matches r ev ro else true
-                    | OEnc w en =>
+                        if (e =? -1) && (s =? -1) then outc_matches r hdr false ev ro else true
+                    | OEnc w en _ =>
                         let ce := ref_ext en in
                         if ce =? -1 then true
-                        else if e =? -1 then (s =? ce) && outc_matches r ed ro
-                        else if e =? ce then outc_matches r ed ro
+                        else if e =? -1 then (s =? ce) && outc_matches r hdr false ed ro
+                        else if e =? ce then outc_matches r hdr false ed ro
                         else true
                     end in
                   ok_verdict agree prop
-              | _, _ => malformed
+              | _, _, _ => malformed
               end
           | _ => malformed
           end
-      | _, _, _, _, _ => malformed
+      | _, _, _ => malformed
       end
   | _ => malformed
   end.
